@@ -4,5 +4,12 @@ use crate::wire::*;
 use rv::prelude::*;
 
 pub fn dispatch(op: &str, kind: &str, a: &mut Args) -> Option<String> {
-    None
+    use rv::misc::LogSumExp;
+    Some(match op {
+        "logsumexp" => {
+            let xs = a.list(|a| a.f());
+            tok(&xs.iter().logsumexp())
+        }
+        _ => return None,
+    })
 }
